@@ -22,7 +22,10 @@ const rule = "stream scripts over raw HTTP/2 frames (20-400 ops, 1-6 concurrent 
 	"PING / SETTINGS / ACK / GOAWAY of the same endpoint while the other endpoint writes DATA, PINGs or a large block of its own, started by the arrival of the " +
 	"block's first frame; the order of ARRIVAL is judged for RFC 7540 6.10) and an end-to-end family (the relay behind martian.Proxy: CONNECT, interception, " +
 	"TLS with ALPN h2; IdleTimeout / ReadTimeout / ReadHeaderTimeout / WriteTimeout unset or 300-500 ms, with and without MITMTLSHandshakeTimeout; the " +
-	"connection is kept silent or busy for 3-5 times the largest and then used again). A case is non-trivial when at " +
+	"connection is kept silent or busy for 3-5 times the largest and then used again). In all three families the relay's options are drawn per case " +
+	"(h2.Config.EnableDebugLogs on/off; StreamProcessorFactories none / a bypassed factory / pass-through processors / both chained) and every header field draws " +
+	"its sender's HPACK representation (x/net's encoder: indexed, incremental indexing, never indexed for sensitive fields; the rig's own writer: literal without " +
+	"indexing / never indexed, name as static index or literal, Huffman where shorter / always / never); names, values and never-indexed marks must arrive. A case is non-trivial when at " +
 	"least one frame was held by the relay and released later; distinct = distinct observed traces"
 
 func Run(ctx *core.Ctx) {
